@@ -146,6 +146,7 @@ type Exec struct {
 	cmodels     []*cmodel    // per job: cached models (counterexample cache)
 	cacheHits   int
 	bounds      map[int]ival
+	linForms    map[int]linForm
 }
 
 type obsRec struct {
